@@ -9,6 +9,7 @@ open C04AsmModel
 open C04AllocModel
 open C04MfraModel
 open C04TreeModel
+open C04XrefModel
 
 let zarg s = z_of_hex s
 
@@ -183,6 +184,47 @@ let () =
         let sh = if shapes = "-" then [] else L.map parse_shape (split_on ';' shapes) in
         let m = model_pipeline cfg sh in
         if m = obs then Printf.printf "OK %s\n" id else Printf.printf "MISMATCH %s assembly model=%s\n" id m
+      | ["X"; id; _cfg; moov; ms; trafs; obs] ->
+        (* cross references of the second senc pass: decode class and the state of the picked senc of every traf *)
+        let nl s = if s = "" then [] else split_on ',' s in
+        let parse_trak t = match split_on '.' t with
+          | [id; e] ->
+            let tk = if id = "n" then None else Some (ni id) in
+            let ek = if e = "n" then ENone
+              else EAV (e.[0] = 'e', if S.length e = 1 then None else Some (ni (S.sub e 1 (S.length e - 1)))) in
+            (tk, ek)
+          | _ -> failwith "bad trak" in
+        let moovc = if moov = "-" then None
+          else Some (let b = S.sub moov 1 (S.length moov - 1) in if b = "" then [] else L.map parse_trak (split_on ';' b)) in
+        let parse_senc t = match split_on '.' t with
+          | [pf; off; fl; cnt; raw] ->
+            { se_piff = (pf = "1"); se_off = ni off; se_flags = ni fl; se_count = ni cnt; se_raw = bytes_of_hex raw }
+          | _ -> failwith "bad senc" in
+        let parse_xtraf t =
+          let fs = split_on '|' t in
+          let get c = L.find (fun f -> f.[0] = c) fs in
+          let h = get 'h' and a = get 'a' and b = get 'b' and g = get 'g' and s = get 's' in
+          let rest f = S.sub f 2 (S.length f - 2) in
+          { xt_tfhd = (if h = "h-" then None else Some (ni (S.sub h 1 (S.length h - 1))));
+            xt_saio = (if a = "a-" then None else Some (L.map n_of_hex (nl (rest a))));
+            xt_sbgp = (if b = "b-" then None else
+                         let es = L.map (fun e -> match split_on '.' e with [c; i] -> (ni c, ni i) | _ -> failwith "bad sbgp") (nl (S.sub b 4 (S.length b - 4))) in
+                         Some { sb_seig = (b.[2] = '1'); sb_counts = L.map fst es; sb_idx = L.map snd es });
+            xt_sgpd = (if g = "g-" then None else
+                         Some { sg_seig = (g.[2] = '1');
+                                sg_entries = L.map (fun e -> if e = "o" then SGOther else SGSeig (ni (S.sub e 1 (S.length e - 1)))) (nl (S.sub g 4 (S.length g - 4))) });
+            xt_sencs = (let r = rest s in if r = "" then [] else L.map parse_senc (split_on ';' r)) } in
+        let tl = if trafs = "" then [] else L.map parse_xtraf (split_on '/' trafs) in
+        let m =
+          match moof_senc_pass_x moovc (ni ms) tl with
+          | Ok states ->
+            "dec=ok|t=" ^ S.concat "," (L.map2 (fun tr st ->
+                match picked_senc tr, st with
+                | None, _ -> "-"
+                | Some _, Some (a, b) -> Printf.sprintf "0:%d:%d" (int_of_n a) (int_of_n b)
+                | Some s, None -> Printf.sprintf "%s:0:0" (b01 (se_unparsed s))) tl states)
+          | r -> "dec=" ^ cls_of r in
+        if m = obs then Printf.printf "OK %s\n" id else Printf.printf "MISMATCH %s xref model=%s\n" id m
       | ["C"; id; path; hex; cls; cnt; lb] ->
         (* count-field inflation of a table box: outcome class, decoded entry count and allocation bucket
            against the prologue models of C04AllocModel.v *)
